@@ -83,6 +83,13 @@ func runC01(c *Ctx) {
 			eph = append(eph, r)
 		}
 	}
+	// the value may be compared as part of the whole output or on its own
+	{
+		lS, rS := mustRe(pat("%T2%.SiacoinInputs[*].Parent.SiacoinOutput")), mustRe(pat(esce+".SiacoinOutput"))
+		lV, rV := mustRe(pat("%T2%.SiacoinInputs[*].Parent.SiacoinOutput.Value")), mustRe(pat(esce+".SiacoinOutput.Value"))
+		eph[0].LFn = func(a string) bool { return lS.MatchString(a) || lV.MatchString(a) }
+		eph[0].RFn = func(a string) bool { return rS.MatchString(a) || rV.MatchString(a) }
+	}
 	runGuardTable(c, "ephemeral-guard", ge, eph)
 	c.Min("ephemeral-guard", len(eph))
 	c01ValueSources(c, ge)
@@ -96,6 +103,8 @@ type createRow struct {
 	val       string // pattern of the output argument
 	immature  bool
 	ctx       []string
+	ctxRaw    []string // allowed contexts given as finished regular expressions
+	need      []string // contexts (regular expressions) the creation must be under: it pays out only in that case
 	alts      []Alt // for branch-dependent values: each alternative with its context pattern
 }
 
@@ -139,7 +148,7 @@ func valueSources(c *Ctx, ge *GuardEngine, rule string, only map[string]bool) {
 		{id: "v2-claim", entry: A2T, id0: "call (types.SiafundOutputID).V2ClaimOutputID(%T2%.SiafundInputs[*].Parent.ID)", val: claim("%MS%.siafundTaxRevenue", "%T2%.SiafundInputs[*].Parent.ClaimStart", "%T2%.SiafundInputs[*].Parent.SiafundOutput.Value"), immature: true},
 		{id: "v1-storage-proof-valid-outputs", entry: AT, id0: "call (types.FileContractID).ValidOutputID(%T1%.StorageProofs[*].ParentID, idx)", val: fceSP + ".FileContract.ValidProofOutputs[*]", immature: true},
 		{id: "v1-expiry-missed-outputs", entry: MAB, id0: "call (types.FileContractID).MissedOutputID({consensus.V1BlockSupplement}.ExpiringFileContracts[*].ID, idx)", val: "{consensus.V1BlockSupplement}.ExpiringFileContracts[*].FileContract.MissedProofOutputs[*]", immature: true,
-			ctx: []string{"call (consensus.MidState).isSpent(…ExpiringFileContracts[*].ID) is false"}},
+			ctxRaw: []string{notSpentPat("…ExpiringFileContracts[*].ID")}, need: []string{notSpentPat("…ExpiringFileContracts[*].ID")}},
 		{id: "v2-resolution-renter", entry: A2T, id0: "call (types.FileContractID).V2RenterOutputID(" + res + ".Parent.ID)", val: "phi(…)", immature: true,
 			alts: []Alt{{ren + ".FinalRenterOutput", []string{okRen}}, {res + ".Parent.V2FileContract.RenterOutput", []string{okSP}}, {res + ".Parent.V2FileContract.RenterOutput", []string{okExp + "|default"}}}},
 		{id: "v2-resolution-host", entry: A2T, id0: "call (types.FileContractID).V2HostOutputID(" + res + ".Parent.ID)", val: "phi(…)", immature: true,
@@ -171,6 +180,9 @@ func valueSources(c *Ctx, ge *GuardEngine, rule string, only map[string]bool) {
 		for _, x := range r.ctx {
 			ctxRes = append(ctxRes, mustRe(pat(x)))
 		}
+		for _, x := range r.ctxRaw {
+			ctxRes = append(ctxRes, mustRe(x))
+		}
 		var problems []string
 		done := false
 		for _, cf := range cs {
@@ -188,6 +200,22 @@ func valueSources(c *Ctx, ge *GuardEngine, rule string, only map[string]bool) {
 			}
 			if bad := unexpectedCtx(cf.Ctx, ctxRes, cf.Args); len(bad) > 0 {
 				problems = append(problems, fmt.Sprintf("%s: created only when %s", where, strings.Join(bad, " && ")))
+				continue
+			}
+			missing := ""
+			for _, n := range r.need {
+				nre, found := mustRe(n), false
+				for _, cx := range cf.Ctx {
+					if nre.MatchString(cx) {
+						found = true
+					}
+				}
+				if !found {
+					missing = n
+				}
+			}
+			if missing != "" {
+				problems = append(problems, fmt.Sprintf("%s: created whether or not the contract was already resolved in this block (no enclosing test of the spent set): a contract proven in the block its window ends pays out twice", where))
 				continue
 			}
 			if len(r.alts) > 0 {
